@@ -2,6 +2,7 @@
 # Applies every behaviour-preserving refactoring in /verif/benign/<id>/refactorN.diff to /repo, runs the check of the
 # property it was written against (evidence writing off), reverts, and records whether the check stayed silent.
 import os, json, subprocess, sys, glob
+REPO=os.environ.get('VERIF_REPO','/repo')  # a scratch worktree can be used instead of /repo (then set VERIF_OUT too)
 only=sys.argv[1:]
 res={}
 for d in sorted(glob.glob('/verif/benign/*')):
@@ -10,7 +11,7 @@ for d in sorted(glob.glob('/verif/benign/*')):
     prop=name[:3]
     for f in sorted(glob.glob(d+'/refactor*.diff')):
         key=name+'/'+os.path.basename(f)
-        if subprocess.run(['git','-C','/repo','apply',f]).returncode!=0:
+        if subprocess.run(['git','-C',REPO,'apply',f]).returncode!=0:
             res[key]={'applies':False}; print(key,'DOES NOT APPLY'); continue
         try:
             p=subprocess.run(['/verif/check',prop],capture_output=True,text=True,env=dict(os.environ,VERIF_NO_EVIDENCE='1'))
@@ -18,8 +19,8 @@ for d in sorted(glob.glob('/verif/benign/*')):
             res[key]={'applies':True,'exit':p.returncode,'failed_obligations':failed}
             print(key,'silent' if p.returncode==0 else 'ALARM',failed[:3])
         finally:
-            subprocess.run(['git','-C','/repo','checkout','--','.'])
-            subprocess.run(['git','-C','/repo','clean','-fdq','--','internal','pkg','cmd','apis'])
+            subprocess.run(['git','-C',REPO,'checkout','--','.'])
+            subprocess.run(['git','-C',REPO,'clean','-fdq','--','internal','pkg','cmd','apis'])
 if only and os.path.exists('/verif/benign/results.json'):
     old=json.load(open('/verif/benign/results.json')); old.update(res); res=old
 json.dump(res,open('/verif/benign/results.json','w'),indent=1,sort_keys=True)
